@@ -7,6 +7,7 @@ import (
 	"time"
 
 	"github.com/go-spatial/geom"
+	"github.com/go-spatial/geom/cmp"
 	"github.com/go-spatial/geom/encoding/gpkg"
 	"github.com/pdok/texel/processing"
 )
@@ -262,7 +263,7 @@ func (target *TargetGeopackage) writeFeatures(features []processing.Feature) {
 			log.Fatalf("Could not get a result summary from the prepared statement for fid %s: %s", fid, err)
 		}
 
-		if f.Geometry() == nil { // nothing to add to the extent
+		if cmp.IsEmptyGeo(f.Geometry()) { // NULL or empty (e.g. POINT EMPTY): nothing to add to the extent
 			continue
 		}
 		if ext == nil {
